@@ -253,6 +253,28 @@ def forms(e):
         fs.append((n, f'Push::push(self, {f("v")})'))
     return fs
 
+def size_slots(e, acc=None):
+    """pre-order list of the Rust types whose size_of the model needs: for every SliceRegion with a
+    Vec index container the child's Index type; for every ColumnsRegion the child region type and the
+    child's Index type"""
+    if acc is None: acc = []
+    k = e[0]
+    if k == 'sl' and e[2] == 'vec':
+        acc.append(f'<{rust_type(e[1])} as Region>::Index')
+    if k == 'cols':
+        acc.append(rust_type(e[1])); acc.append(f'<{rust_type(e[1])} as Region>::Index')
+    for x in e[1:]:
+        if isinstance(x, tuple): size_slots(x, acc)
+    return acc
+
+def find_cols(e):
+    if e[0] == 'cols': return e
+    for x in e[1:]:
+        if isinstance(x, tuple):
+            r = find_cols(x)
+            if r is not None: return r
+    return None
+
 def gen_rust():
     out = ['// GENERATED by tools/catalogue.py -- do not edit', '#![allow(unused_imports)]',
            'use crate::run::*;', 'use crate::wire::*;',
@@ -315,6 +337,17 @@ def gen_rust():
         out.append('    }')
         out.append('    fn push_item(&mut self, src: &Self, i: Self::Index, owned: bool) -> Self::Index { push_item_generic(self, src, i, owned) }')
         out.append('}')
+    out.append('/// size_of of the types the model needs sizes for, per entry (see catalogue.size_slots)')
+    out.append('pub fn entry_sizes() -> Vec<(&\'static str, Vec<usize>)> {')
+    out.append('    vec![')
+    for name, e in ENTRIES:
+        ss = size_slots(e)
+        out.append(f'        ("{name}", vec![' + ', '.join(f'std::mem::size_of::<{t}>()' for t in ss) + ']),')
+    for name, e, o in FS_ENTRIES:
+        ss = size_slots(e) + ([f'<{rust_type(e)} as Region>::Index'] if o == 'vec' else [])
+        out.append(f'        ("{name}", vec![' + ', '.join(f'std::mem::size_of::<{t}>()' for t in ss) + ']),')
+    out.append('    ]')
+    out.append('}')
     out.append('pub fn dispatch_fs(name: &str, ops: &[crate::fs::FsOp]) -> Option<Vec<U>> {')
     out.append('    Some(match name {')
     for name, e, o in FS_ENTRIES:
@@ -348,29 +381,38 @@ def idx_size(k):
 def coq_ic_nat(o):
     return {'vec': '(vec_ic nat 8)', 'iopt': '(ic_nat index_optimized)', 'ilist': '(ic_nat index_list)'}[o]
 
-def coq_term(e):
+def coq_term(e, ctr=None):
+    """ctr: running index into the entry's size slots (same pre-order as size_slots)"""
+    if ctr is None: ctr = [0]
+    def slot():
+        i = ctr[0]; ctr[0] += 1; return f'(nth {i} szs 0%N)'
     k = e[0]
     if k == 'own': return f'(m_owned {coq_elem(e[1])})'
     if k == 'mir': return f'(m_mirror {coq_elem(e[1])})'
     if k == 'vecr': return f'(m_vec {coq_elem(e[1])})'
     if k == 'str': return '(m_string str_wf (m_owned (e_word 8)))'
-    if k == 'strof': return f'(m_string str_wf {coq_term(e[1])})'
+    if k == 'strof': return f'(m_string str_wf {coq_term(e[1], ctr)})'
     if k == 'sl':
-        x = coq_term(e[1]); ik = idx_kind(e[1])
+        ik = idx_kind(e[1])
         if e[2] == 'vec':
-            o = f'(vec_ic _ {idx_size(ik)})'
-        else:
-            base = {'iopt': 'index_optimized', 'ilist': 'index_list'}[e[2]]
-            if ik == 'usize': o = f'(ic_nat {base})'
-            elif ik == ('val', 'usize') or ik == ('val', 'u64'): o = base
-            else: raise ValueError(('index container needs usize indices', e))
+            sz = slot(); x = coq_term(e[1], ctr)
+            return f'(m_slice_vec {x} {sz})'
+        x = coq_term(e[1], ctr)
+        base = {'iopt': 'index_optimized', 'ilist': 'index_list'}[e[2]]
+        if ik == 'usize': o = f'(ic_nat {base})'
+        elif ik == ('val', 'usize') or ik == ('val', 'u64'): o = base
+        else: raise ValueError(('index container needs usize indices', e))
         return f'(m_slice {x} {o})'
-    if k == 'opt': return f'(m_option {coq_term(e[1])})'
-    if k == 'res': return f'(m_result {coq_term(e[1])} {coq_term(e[2])})'
-    if k == 'tup2': return f'(m_tuple2 {coq_term(e[1])} {coq_term(e[2])})'
-    if k == 'col': return f'(m_collapse {coq_term(e[1])})'
-    if k == 'con': return f'(m_consec {coq_term(e[1])} {coq_ic_nat(e[2])} chk)'
-    if k == 'cols': return f'(m_columns {coq_term(e[1])} {coq_ic_nat(e[2])} chk)'
+    if k == 'opt': return f'(m_option {coq_term(e[1], ctr)})'
+    if k == 'res':
+        a = coq_term(e[1], ctr); b = coq_term(e[2], ctr); return f'(m_result {a} {b})'
+    if k == 'tup2':
+        a = coq_term(e[1], ctr); b = coq_term(e[2], ctr); return f'(m_tuple2 {a} {b})'
+    if k == 'col': return f'(m_collapse {coq_term(e[1], ctr)})'
+    if k == 'con': return f'(m_consec {coq_term(e[1], ctr)} {coq_ic_nat(e[2])} chk)'
+    if k == 'cols':
+        csz = slot(); isz = slot(); x = coq_term(e[1], ctr)
+        return f'(m_columns {x} {coq_ic_nat(e[2])} chk {csz} {isz})'
     raise ValueError(e)
 
 def gen_coq():
@@ -378,18 +420,18 @@ def gen_coq():
            'From FC Require Import Base.Res Base.Utf8 Index.IC Index.Stride Region.Region Region.Owned Region.Simple',
            '  Region.Slice Region.Collapse Region.Consec Region.Columns Region.Items Model.Wire Model.Pairs Model.FSMachine.',
            'Set Implicit Arguments.', '',
-           'Definition entry (chk : bool) (n : N) : option MRegion :=',
+           'Definition entry (chk : bool) (szs : list N) (n : N) : option MRegion :=',
            '  match n with']
     for i, (name, e) in enumerate(ENTRIES):
         out.append(f'  | {i}%N => Some {coq_term(e)}  (* {name} *)')
     out.append('  | _ => None')
     out.append('  end.')
     out.append('')
-    out.append('Definition fs_entry (chk : bool) (n : N) : option FSM :=')
+    out.append('Definition fs_entry (chk : bool) (szs : list N) (n : N) : option FSM :=')
     out.append('  match n with')
     for i, (name, e, o) in enumerate(FS_ENTRIES):
         ik = idx_kind(e)
-        if o == 'vec': ic = f'(vec_ic _ {idx_size(ik)})'
+        if o == 'vec': ic = f'(vec_ic _ (nth {len(size_slots(e))} szs 0%N))'
         else:
             base = {'iopt': 'index_optimized', 'ilist': 'index_list'}[o]
             ic = f'(ic_nat {base})' if ik == 'usize' else base
